@@ -54,6 +54,8 @@ type feedRec struct {
 	printed    int
 	afterDone  int
 	doneClosed atomic.Bool
+	termClosed atomic.Bool // the harness closed the terminator
+	afterTerm  int         // callbacks that started after the terminator was closed
 }
 
 var progCounter atomic.Int64
@@ -96,6 +98,9 @@ func newWorldAt(kind, dir, name string, reopen bool) (*World, error) {
 	mode := rosmar.CreateNew
 	if reopen {
 		mode = rosmar.ReOpenExisting
+		if os.Getenv("VERIF_REOPEN_MODE") == "open" {
+			mode = rosmar.CreateOrOpen
+		}
 	}
 	b, err := rosmar.OpenBucket(w.url, w.name, rosmar.OpenMode(mode))
 	if err != nil {
@@ -508,7 +513,7 @@ func (w *World) exec(l Line) (res string) {
 	case "draw":
 		return fmt.Sprintf("r=ok cas=%d", rosmar.VerifHLCNow())
 	case "restart":
-		return w.restart(l.u64("hlc", 0))
+		return w.restart(l.u64("hlc", 0), l.str("mode", ""))
 	case "lastcas":
 		needColl()
 		b, cc, err := rosmar.VerifLastCas(c)
@@ -521,6 +526,15 @@ func (w *World) exec(l Line) (res string) {
 		return w.startFeed(l)
 	case "drain":
 		return w.drain(l)
+	case "feedstat":
+		f := w.feeds[l.Pos[0]]
+		if f == nil {
+			return "r=harness-nofeed"
+		}
+		time.Sleep(50 * time.Millisecond)
+		f.mu.Lock()
+		defer f.mu.Unlock()
+		return fmt.Sprintf("r=ok events=%d afterterm=%d afterdone=%d done=%v", len(f.events), f.afterTerm, f.afterDone, f.doneClosed.Load())
 	case "stopfeed":
 		return w.stopFeed(l)
 	case "expstate":
@@ -676,6 +690,9 @@ func (w *World) startFeed(l Line) string {
 		if f.doneClosed.Load() {
 			f.afterDone++
 		}
+		if f.termClosed.Load() {
+			f.afterTerm++
+		}
 		f.events = append(f.events, fmtEvent(e))
 		switch e.Opcode {
 		case sgbucket.FeedOpBeginBackfill:
@@ -752,6 +769,7 @@ func (w *World) stopFeed(l Line) string {
 	if f == nil {
 		return "r=harness-nofeed"
 	}
+	f.termClosed.Store(true)
 	safeCloseBool(f.term)
 	select {
 	case <-f.done:
@@ -785,6 +803,11 @@ func (w *World) execUpdate(c *rosmar.Collection, key string, exp uint32, l Line)
 			return []byte(step[4:]), nil, false, nil
 		case step == "del":
 			return nil, nil, true, nil
+		case strings.HasPrefix(step, "delif:"):
+			if string(current) == step[6:] {
+				return nil, nil, true, nil
+			}
+			return nil, nil, false, nil
 		case step == "cancel":
 			return nil, nil, false, nil
 		case step == "err":
@@ -868,7 +891,7 @@ var _ = sort.Strings
 
 // restart closes every handle of the (on-disk) bucket, lets the process-global clock forget what it handed out
 // (a new process starts at `hlc`), and reopens the bucket.
-func (w *World) restart(hlc uint64) string {
+func (w *World) restart(hlc uint64, openMode string) string {
 	if w.kind != "disk" {
 		return "r=harness-restart-needs-disk"
 	}
@@ -884,7 +907,11 @@ func (w *World) restart(hlc uint64) string {
 	w.colls = map[string]*rosmar.Collection{}
 	w.feeds = map[string]*feedRec{}
 	rosmar.VerifResetHLC(hlc)
-	b, err := rosmar.OpenBucket(w.url, w.name, rosmar.ReOpenExisting)
+	mode := rosmar.ReOpenExisting
+	if openMode == "open" {
+		mode = rosmar.CreateOrOpen // an existing bucket must come back the same whichever of the two modes reopens it
+	}
+	b, err := rosmar.OpenBucket(w.url, w.name, rosmar.OpenMode(mode))
 	if err != nil {
 		return "r=" + errClass(err)
 	}
